@@ -114,6 +114,7 @@ fn verif_entry() {
         "c07live" => crate::event::verif_event::drv::run_c07(replay),
         "c18api" => crate::event::verif_event::drv::run_c18api(replay),
         "c17api" => crate::event::verif_event::drv::run_c17api(replay),
+        "c16dyn" => crate::event::verif_event::drv::run_c16dyn(replay),
         "c17" => c17::run(replay),
         "c13" => crate::rpki::verif_rpki::run_c13(replay),
         "" => {
